@@ -1,4 +1,3 @@
 package main
 
-func genLockGraph(repo, out string) error { return nil }
 func genShape(repo, out string) error     { return nil }
